@@ -98,7 +98,7 @@ def gen(tier, seed, info):
     for colors in (8, 16):
         for i in range(256):
             yield emit("palette_sweep", "D %d s:fg=%d s:fg=%d c:fg=%d c:bg=%d c:bg=%d s:fg=%d" % (colors, i, i, i, i, i, i % colors))
-    for colors in (2, 8, 16, 88, 256, 16777216):
+    for colors in (-1, 0, 2, 8, 16, 88, 256, 16777216):
         for p in ("fg=100#102030", "fg=3#102030,bg=9#040506", "fg=-1,bg=-1", pen_str(RICH)):
             yield emit("palette_misc", "D %d s:%s s:%s c:%s s:-" % (colors, p, p, p))
     info["exhaustive"] = True
@@ -114,7 +114,7 @@ def gen(tier, seed, info):
             colon, rgb = rnd.choice(caps)
             yield emit("malformed" if malformed else "random_X", "X %d %d %s" % (colon, rgb, ops))
         else:
-            yield emit("malformed" if malformed else "random_D", "D %d %s" % (rnd.choice([8, 8, 16, 16, 88, 256]), ops))
+            yield emit("malformed" if malformed else "random_D", "D %d %s" % (rnd.choice([8, 8, 16, 16, 88, 256, -1, 0]), ops))
     info["cases_by_kind"] = counts
     info["random_ops"] = "1..8 requests per case; pens with 0..10 random attributes, colours with 40% random index and RGB"
 
